@@ -39,6 +39,9 @@ cols = [
     column("lossless", "lossless_10bit", luma_offset=64, luma_excursion=876, color_diff_offset=512, color_diff_excursion=896),
     column("ld", "ld"),
     column("ld", "ld_pb", picture_bytes=48),
+    # an irregular low-delay geometry: horizontal-only transform, uneven tiny
+    # slices filled to within a few bits
+    column("ld", "ld_irregular", frame_width=12, frame_height=6, clean_width=12, clean_height=6, dwt_depth=0, dwt_depth_ho=1, slices_x=2, slices_y=2, picture_bytes=16),
     column("frag", "frag"),
     column("frag", "frag2", fragment_slice_count=2),
     # free-text names that differ only in punctuation (distinct names, distinct
